@@ -121,6 +121,24 @@ func (v *parser_) ParseSource(source string) (collection any) {
 
 // Private
 
+func (v *parser_) asAssociation(
+	item any,
+	token TokenLike,
+) col.AssociationLike[any, any] {
+	var association, ok = item.(col.AssociationLike[any, any])
+	if !ok {
+		// The context requires associations but the sequence contains values.
+		var message = v.formatError(token)
+		message += v.generateSyntax("Association",
+			"Collection",
+			"Associations",
+			"Association",
+		)
+		panic(message)
+	}
+	return association
+}
+
 func (v *parser_) formatError(token TokenLike) string {
 	// Format the error message.
 	var message = fmt.Sprintf(
@@ -286,7 +304,7 @@ func (v *parser_) parseCollection() (
 	case "Catalog":
 		var catalog = col.Catalog[any, any](notation).Make()
 		for _, item := range sequence.AsArray() {
-			var association = item.(col.AssociationLike[any, any])
+			var association = v.asAssociation(item, token)
 			var key = association.GetKey()
 			var value = association.GetValue()
 			catalog.SetValue(key, value)
@@ -295,7 +313,7 @@ func (v *parser_) parseCollection() (
 	case "Map":
 		var map_ = col.Map[any, any](notation).Make()
 		for _, item := range sequence.AsArray() {
-			var association = item.(col.AssociationLike[any, any])
+			var association = v.asAssociation(item, token)
 			var key = association.GetKey()
 			var value = association.GetValue()
 			map_.SetValue(key, value)
